@@ -1,12 +1,25 @@
 use vharness::bridge::*;
 use vharness::oracle::{pi1, snf, groups};
+use vharness::oracle::groups::Pres;
 fn main() {
-    let m = msym_from_text("<1.1:4:2 4,3 4,4 3:2,4>").unwrap();
+    let m = msym_from_text("<1.1:4 3:2 4,2 4,3 4,3 4:4 1,4,4 4>").unwrap();
+    println!("valid {} connected {}", m.is_valid_symbol(), m.is_connected());
     let tb = pi1::textbook_pi1(&m);
-    println!("tb {:?} letters {:?}", tb.pres, tb.letter);
-    let edges = vec![(4usize,0usize),(3,1),(1,0),(4,1)];
-    let tb2 = pi1::textbook_pi1_with_extra_trivial(&m, &edges);
-    println!("tb2 {:?}", tb2.pres);
-    println!("{:?} {:?}", snf::abelian_invariants_of_presentation(tb.pres.ngens,&tb.pres.rels), snf::abelian_invariants_of_presentation(tb2.pres.ngens,&tb2.pres.rels));
-    println!("{:?} {:?}", groups::low_index_profile(&tb.pres,3,100000), groups::low_index_profile(&tb2.pres,3,100000));
+    println!("tb {:?}", tb.pres);
+    let fg = rust_dsymbols::fundamental_group::fundamental_group(&to_partial_dsym(&m));
+    let lp = Pres{ngens: fg.nr_generators(), rels: from_freewords(fg.relators.iter())};
+    println!("lib {:?}", lp);
+    for k in 1..=5 {
+        println!("k={} tb lowindex {:?} lib-pres lowindex {:?} tb bf {:?} lib bf {:?}", k,
+          groups::low_index_profile(&tb.pres,k,10_000_000), groups::low_index_profile(&lp,k,10_000_000),
+          groups::classes_of_index_bf(&tb.pres,k,1e8), groups::classes_of_index_bf(&lp,k,1e8));
+    }
+    let rels = to_freewords(&lp.rels);
+    let n: Vec<usize> = rust_dsymbols::fpgroups::cosets::coset_tables(lp.ngens, &rels, 5).map(|t| t.len()).collect();
+    println!("repo coset_tables on lib pres: {:?}", n);
+    let rels = to_freewords(&tb.pres.rels);
+    let n: Vec<usize> = rust_dsymbols::fpgroups::cosets::coset_tables(tb.pres.ngens, &rels, 5).map(|t| t.len()).collect();
+    println!("repo coset_tables on tb pres: {:?}", n);
+    println!("orders {:?} {:?}", groups::order(&tb.pres, 100000), groups::order(&lp, 100000));
+    println!("ab {:?} {:?}", snf::abelian_invariants_of_presentation(tb.pres.ngens,&tb.pres.rels), snf::abelian_invariants_of_presentation(lp.ngens,&lp.rels));
 }
